@@ -189,12 +189,23 @@ def derive_seed(seed: int, pid: str, sub: str, shard: int) -> int:
 
 
 def load_known(pid: str) -> list:
-    path = os.path.join(VERIF, "KNOWN_FINDINGS.json")
-    if not os.path.exists(path):
-        return []
-    with open(path) as f:
-        data = json.load(f)
-    return [e for e in data.get("findings", []) if e.get("property") == pid]
+    """KNOWN_FINDINGS.json (authoritative) + staging files findings/*.json; read-only."""
+    paths = [os.path.join(VERIF, "KNOWN_FINDINGS.json")]
+    fd = os.path.join(VERIF, "findings")
+    if os.path.isdir(fd):
+        paths += [os.path.join(fd, f) for f in sorted(os.listdir(fd)) if f.endswith(".json")]
+    out = []
+    seen = set()
+    for path in paths:
+        if not os.path.exists(path):
+            continue
+        with open(path) as f:
+            data = json.load(f)
+        for e in data.get("findings", []):
+            if e.get("property") == pid and e.get("id") not in seen:
+                seen.add(e.get("id"))
+                out.append(e)
+    return out
 
 
 def in_easyfea(tb) -> Optional[str]:
